@@ -413,3 +413,27 @@ def entry_point_arguments(chk, repo, rule, where='TidalPy/RadialSolver/solver.py
         if a.get('integration_method') != code: bad.append(f'integration method code {a.get("integration_method")} for {method!r} (expected {code})')
         chk.ob(rule, f'{lab}: every parameter of the compiled driver receives the like-named argument of the Python entry point (arrays by their first element, per-layer tuples in order, codes for layer type and method)',
                not bad, '; '.join(bad[:4]), ms.where(fw), key=f'{rule}|{lab}', method='interpretation of the entry point with the driver replaced by a recorder')
+
+
+def malformed_structures(chk, repo, rule, where='TidalPy/RadialSolver/solver.pyx'):
+    """Layer structures the solver cannot integrate (a layer with no slices, a layer with too few slices -- innermost, middle or outermost): the executed driver must end
+    in a Python exception before a solver is built for that layer and without touching memory outside any array."""
+    cases = [((4, 0, 4), 'middle layer without slices'), ((0, 4, 4), 'innermost layer without slices'), ((4, 4, 0), 'outermost layer without slices'),
+             ((4, 2, 4), 'middle layer with two slices'), ((3, 4, 4), 'innermost layer with three slices'), ((4, 4, 1), 'outermost layer with one slice')]
+    for per, lab in cases:
+        kinds = ('solid', 'liquid-static', 'solid')
+        try:
+            r = SR.run_solver(repo, kinds, ('tidal',), False, slices_by_layer=per)
+        except AnalysisError as ex:
+            chk.ob(rule, f'{lab} {per}: the solver ends in a Python exception before integrating', False,
+                   f'the driver runs on into the solve (the interpretation stops at: {str(ex)[:140]})', where, key=f'{rule}|{lab}', method='whole-function symbolic execution on a malformed layer structure')
+            continue
+        built = len(r.build_calls)
+        bad_layer = next(i for i, n in enumerate(per) if n <= 3)
+        ok = r.raised is not None and built <= bad_layer and not r.oob
+        why = []
+        if r.raised is None: why.append('no exception is raised' + ('' if r.solution_obj is None else f' (success={r.solution_obj.attrs.get("success")})'))
+        if built > bad_layer: why.append(f'{built} layer solvers were built although layer {bad_layer} cannot be integrated')
+        if r.oob: why.append('memory outside an array is touched: ' + '; '.join(f'{kind_} of element {k} of {name} (extent {ext})' for name, ext, k, kind_, ln in r.oob[:2]))
+        chk.ob(rule, f'{lab} {per}: the solver ends in a Python exception before a solver is built for that layer, touching no memory outside its arrays', ok, '; '.join(why), where,
+               key=f'{rule}|{lab}', method='whole-function symbolic execution on a malformed layer structure')
